@@ -2,16 +2,21 @@
 //!   scopecheck [--tables FILE] [--ranges FILE] [--threads N] < programs.ndjson
 //! Every case is a program emitted by spec/GleamGen.tla: tokens with role, declared target (tg)
 //! and the visible value names (vis).  Output: ndjson mismatch lines tagged with "prop".
+//! Workspace: m1 = the program (package `app`), the library modules m2 and sub/m2 in a second local package `lib`
+//! that `app` depends on; one workspace in four (by seed and case index, or `"shape"` of the case) has a single package.
 use ide::{Analysis, FileId, FilePos, GotoDefinitionResult};
 use serde_json::{json, Value};
 use std::io::Write;
 use std::sync::{Arc, Mutex};
-use verif_harness::programs::{self, Program, Tok, LIB_NAME, LIB_TEXT};
+use verif_harness::programs::{self, Program, Tok, LIBS};
 use verif_harness::util::{catch, quiet_panics, Rng};
-use verif_harness::workspace;
+use verif_harness::workspace::{self, Shape};
 
 const M1: FileId = FileId(0);
-const M2: FileId = FileId(1);
+
+fn gen_ws(shape: Shape, m1: &str) -> workspace::Ws {
+    workspace::gen_workspace(shape, &[("m1", m1), (LIBS[0].0, LIBS[0].1), (LIBS[1].0, LIBS[1].1)])
+}
 
 const IDENT_ROLES: &[&str] = &["ref", "def", "spreaddef", "altdef", "modref", "pmodref", "qref", "impname", "impalias", "modpath", "moddef", "pref", "label", "plabel", "field", "tref", "fieldalt", "qtref", "tmodref"];
 
@@ -42,18 +47,36 @@ fn key_for(prog: &Program, file: FileId, start: usize, end: usize) -> Key {
             }
         }
         Key::Other(format!("m1:{start}..{end}"))
-    } else if file == M2 {
-        for (id, off, len) in programs::lib_decls() {
+    } else if (file.0 as usize) <= LIBS.len() {
+        let lib = file.0 as usize - 1;
+        for (id, off, len) in programs::lib_decls_of(lib) {
             if off >= start && off + len <= end {
                 return Key::Lib(id);
             }
         }
         if start == 0 {
-            return Key::Lib(2000);
+            return Key::Lib(LIBS[lib].2);
         }
-        Key::Other(format!("m2:{start}..{end}"))
+        Key::Other(format!("{}:{start}..{end}", LIBS[lib].0))
     } else {
         Key::Other(format!("f{}:{start}..{end}", file.0))
+    }
+}
+
+fn has_unqalias(case: &Value) -> bool {
+    case["imps"].as_array().map_or(false, |a| a.iter().any(|i| i["u"] == "unqalias"))
+}
+
+/// how the accessor written at (or just before) this token came into scope: "plain" (last path segment) / "alias" / ""
+fn acc_kind(case: &Value, t: &Tok) -> &'static str {
+    if !["modref", "pmodref", "tmodref", "qref", "qtref"].contains(&t.r.as_str()) {
+        return "";
+    }
+    let base = t.tg - t.tg % 1000;
+    match case["imps"].as_array().and_then(|a| a.iter().find(|i| (if i["m"] == "m2" { 2000 } else { 3000 }) == base)) {
+        Some(i) if i["as"].as_str().map_or(false, |s| !s.is_empty()) => "alias",
+        Some(_) => "plain",
+        None => "",
     }
 }
 
@@ -67,7 +90,7 @@ fn expected_key(prog: &Program, t: &Tok) -> Option<Option<Key>> {
             g => Some(Key::Lib(g)),
         }),
         "def" | "spreaddef" => Some(Some(Key::Tok(t.idx))),
-        "modref" | "pmodref" => Some(Some(Key::Lib(2000))),
+        "modref" | "pmodref" => Some(Some(Key::Lib(t.tg))),
         _ => None,
     }
 }
@@ -141,8 +164,13 @@ fn main() {
             let prog = programs::render(case, &mut rng, case["plain"].as_bool().unwrap_or(ci % 3 == 0));
             let mut local: Vec<Value> = vec![];
             let mut queries = 0u64;
+            let shape = match case_v["shape"].as_str() { Some("one-package") => Shape::OnePackage, Some(_) => Shape::TwoPackages, None => Shape::seeded(seed, ci) };
+            // what a violation records: the program with the workspace shape it was observed in (a replay uses the same)
+            let mut case_rec = case_v.clone();
+            case_rec["shape"] = json!(shape.name());
+            let case = &case_rec;
             let r = catch(|| {
-                let ws = workspace::single_package(&[("m1", &prog.text), (LIB_NAME, LIB_TEXT)]);
+                let ws = gen_ws(shape, &prog.text);
                 let a = ws.host.snapshot();
                 let mut ranges: Vec<(u32, usize, usize)> = vec![];
                 let nerr = a.diagnostics(M1).unwrap().iter().filter(|d| matches!(d.kind, ide::DiagnosticKind::SyntaxError(_))).count();
@@ -166,7 +194,7 @@ fn main() {
                             let target_role = match &exp { Some(Key::Tok(i)) => prog.toks.iter().find(|d| d.idx == *i).map(|d| d.r.clone()).unwrap_or_default(), Some(Key::Lib(_)) => "lib".into(), _ => "none".into() };
                             local.push(json!({"kind": "mismatch", "prop": "C05",
                                 "features": {"what": if ok { "focus outside full range" } else { "goto" }, "role": t.r, "ctx": t.ctx.join("/"), "inner": t.ctx.last().cloned().unwrap_or_default(),
-                                             "target_role": target_role, "lib_target": if t.tg >= 2000 { t.tg } else { 0 }, "expected_none": exp.is_none(), "got_none": o.goto.is_none(), "imp": case["imp"]},
+                                             "target_role": target_role, "lib_target": if t.tg >= 2000 { t.tg } else { 0 }, "expected_none": exp.is_none(), "got_none": o.goto.is_none(), "imp": case["imp"], "acc": acc_kind(case, t)},
                                 "detail": {"case": case, "text": prog.text, "token": {"idx": t.idx, "text": t.t, "offset": t.start},
                                            "expected": exp.as_ref().map(|k| k.json()), "got": o.goto.as_ref().map(|k| k.json())}}));
                         }
@@ -215,19 +243,20 @@ fn main() {
                         if got != exp || dup || bad_range {
                             local.push(json!({"kind": "mismatch", "prop": "C18",
                                 "features": {"what": if got != exp { "visible set" } else if dup { "duplicate label" } else { "replace range" }, "ctx": t.ctx.join("/"), "inner": t.ctx.last().cloned().unwrap_or_default(),
-                                             "missing": exp.iter().filter(|e| !got.contains(e)).collect::<Vec<_>>(), "extra": got.iter().filter(|g| !exp.contains(g)).collect::<Vec<_>>()},
+                                             "missing": exp.iter().filter(|e| !got.contains(e)).collect::<Vec<_>>(), "extra": got.iter().filter(|g| !exp.contains(g)).collect::<Vec<_>>(),
+                                             "unqalias": has_unqalias(case)},
                                 "detail": {"case": case, "text": prog.text, "token": {"idx": t.idx, "text": t.t, "offset": t.end}, "expected": exp, "got": got}}));
                         }
                     }
                     // ---- C18: the identifier being typed may, so far, spell a keyword (`todo` on the way to `todo_list`):
                     // the offered names and the replaced range must be the same as for any other prefix
-                    if t.r == "ref" && t.idx % 4 == ci % 4 && !t.vis.is_empty() && case["imp"] != "unqalias" {
+                    if t.r == "ref" && t.idx % 4 == ci % 4 && !t.vis.is_empty() && !has_unqalias(case) {
                         let kw = ["todo", "panic"][t.idx % 2];
                         let mut text2 = String::with_capacity(prog.text.len() + 8);
                         text2.push_str(&prog.text[..t.start]);
                         text2.push_str(kw);
                         text2.push_str(&prog.text[t.end..]);
-                        let ws2 = workspace::single_package(&[("m1", &text2), (LIB_NAME, LIB_TEXT)]);
+                        let ws2 = gen_ws(shape, &text2);
                         let a2 = ws2.host.snapshot();
                         let end2 = t.start + kw.len();
                         let items = a2.completions(FilePos::new(M1, (end2 as u32).into()), None).unwrap().unwrap_or_default();
@@ -270,10 +299,13 @@ fn main() {
                             queries += 1;
                             let mut got: Vec<String> = items.iter().map(|i| i.label.to_string()).collect();
                             got.sort();
-                            let exp = vec!["A".to_string(), "C".to_string(), "W".to_string(), "a".to_string(), "c".to_string()];
+                            // the accessor's module decides (m2 and sub/m2 export different sets)
+                            let mut exp: Vec<String> = case["accs"].as_array().and_then(|a| a.iter().find(|x| x["acc"] == t.t.as_str()))
+                                .and_then(|x| x["members"].as_array()).map(|m| m.iter().map(|x| x.as_str().unwrap().to_string()).collect()).unwrap_or_default();
+                            exp.sort();
                             if got != exp {
                                 local.push(json!({"kind": "mismatch", "prop": "C18",
-                                    "features": {"what": "module members", "ctx": t.ctx.join("/"), "inner": t.ctx.last().cloned().unwrap_or_default(),
+                                    "features": {"what": "module members", "ctx": t.ctx.join("/"), "inner": t.ctx.last().cloned().unwrap_or_default(), "acc": acc_kind(case, t),
                                                  "missing": exp.iter().filter(|e| !got.contains(e)).collect::<Vec<_>>(), "extra": got.iter().filter(|g| !exp.contains(g)).collect::<Vec<_>>()},
                                     "detail": {"case": case, "text": prog.text, "token": {"idx": t.idx, "text": t.t, "offset": dot.end}, "expected": exp, "got": got}}));
                             }
@@ -294,7 +326,7 @@ fn main() {
                     let items = case["items"].as_array().cloned().unwrap_or_default();
                     let type_base = items.iter().position(|it| it["k"] == "type").map(|i| 1001 + i as u64);
                     let is_fn_item = |g: u64| g >= 1001 && g < 1100 && items.get((g - 1001) as usize).map_or(false, |it| it["k"] == "fn");
-                    let is_ctor = |g: u64| type_base.map_or(false, |b| g == b + 100 || g == b + 200) || g == 2003 || g == 2004;
+                    let is_ctor = |g: u64| type_base.map_or(false, |b| g == b + 100 || g == b + 200) || (g >= 2000 && (g % 1000 == 3 || g % 1000 == 4));
                     for t in prog.toks.iter() {
                         // expectation: Some(Some(tag)) / Some(None) = must not be highlighted / None = not decided here
                         let exp: Option<Option<&str>> = match t.r.as_str() {
@@ -303,7 +335,7 @@ fn main() {
                                 // specification leaves inaccessible names undecided, as for go-to-definition
                                 if t.tg == 0 && t.r == "qref" { None }
                                 else if t.tg == 0 { Some(None) }
-                                else if is_fn_item(t.tg) || t.tg == 2001 || t.tg == 2002 { Some(Some("Function")) }
+                                else if is_fn_item(t.tg) || (t.tg >= 2000 && (t.tg % 1000 == 1 || t.tg % 1000 == 2)) { Some(Some("Function")) }
                                 else if is_ctor(t.tg) { Some(Some("Constructor")) }
                                 else if t.tg < 1000 { None }          // locals: type-dependent, decided by the Typing programs
                                 else { Some(None) }
@@ -339,7 +371,8 @@ fn main() {
                             }
                         }
                     }
-                    if want_hl && ci % 25 == 0 {
+                    // (the end-to-end half of C19 replays these in a one-module project: programs that do not import sub/m2)
+                    if want_hl && ci % 25 == 0 && !case["imp"].as_str().unwrap_or("").contains("sub/") {
                         hl_recs.lock().unwrap().push(json!({"text": prog.text, "hl": hl.iter().map(|h| json!([u32::from(h.range.start()), u32::from(h.range.end()), format!("{:?}", h.tag)])).collect::<Vec<_>>()}));
                     }
                     for h in &hl {
@@ -351,14 +384,14 @@ fn main() {
                     }
                 }
                 // ---- C20 facts: every reported range with the facts a monitor needs
-                let texts = [prog.text.as_str(), LIB_TEXT];
+                let texts = [prog.text.as_str(), LIBS[0].1, LIBS[1].1];
                 let mut rr = range_recs.lock().unwrap();
                 for (f, s, e) in ranges {
                     let (len, bs, be) = match texts.get(f as usize) {
                         Some(tx) => (tx.len(), tx.is_char_boundary(s.min(tx.len())), tx.is_char_boundary(e.min(tx.len()))),
                         None => (0, false, false),
                     };
-                    rr.insert(format!("{{\"f\":{f},\"nf\":2,\"s\":{s},\"e\":{e},\"len\":{len},\"bs\":{bs},\"be\":{be}}}"));
+                    rr.insert(format!("{{\"f\":{f},\"nf\":3,\"s\":{s},\"e\":{e},\"len\":{len},\"bs\":{bs},\"be\":{be}}}"));
                 }
                 drop(rr);
                 if want_tables {
